@@ -85,8 +85,7 @@ def run_cell(cell, seed):
         mod2 = build(cell)
         xr = util.make_input('randn', [cell['N'], cell['C']] + sp, seed + 77)
         if util.call_lib(mod2, xr)[0]:
-            mod2.load_state_dict(build(cell2).state_dict())
-            ok, y = util.call_lib(mod2, xr)
+            ok, y = util.call_lib(mod2, xr) if util.reload_in_place(mod2, build(cell2)) else (False, 'in-place reload refused')
             case = {'cell': cell2, 'input': 'reload-randn'}
             if not ok:
                 out.append(res(VIOLATED, case, 'M-REF', 'library raised %r after an in-place filter reload' % (y,)))
